@@ -36,6 +36,9 @@ type Config struct {
 	Server drpcmanager.Options
 	NoConn bool // do not create the client conn (raw client side)
 	NoSrv  bool // do not start the server (raw server side)
+	// Real, if set, supplies real transports (net.Pipe, sockets) instead of simnet:
+	// no tap, no gates, and the census cannot be used (goroutines sit in IO wait).
+	Real func() (client, server drpc.Transport, cleanup func())
 }
 
 // Rig is one client/server pair.
@@ -49,6 +52,8 @@ type Rig struct {
 	StopServe  context.CancelFunc
 	ServerLogs []error
 	mu         sync.Mutex
+
+	realCleanup func()
 }
 
 // RoleOf maps point objects to roles for interleaving signatures.
@@ -62,6 +67,10 @@ func RoleOf(who interface{}) string {
 // New builds the rig and starts ServeOne on the server endpoint.
 func New(cfg Config, h drpc.Handler) *Rig {
 	r := &Rig{Pair: simnet.New(cfg.Net)}
+	var trA, trB drpc.Transport = r.Pair.A, r.Pair.B
+	if cfg.Real != nil {
+		trA, trB, r.realCleanup = cfg.Real()
+	}
 	r.Dir = director.New(RoleOf)
 	director.Install(r.Dir)
 	r.ServeCtx, r.StopServe = context.WithCancel(context.Background())
@@ -71,10 +80,10 @@ func New(cfg Config, h drpc.Handler) *Rig {
 			r.ServerLogs = append(r.ServerLogs, err)
 			r.mu.Unlock()
 		}})
-		r.ServeOp = Go("ServeOne", func() (interface{}, error) { return nil, r.Srv.ServeOne(r.ServeCtx, r.Pair.B) })
+		r.ServeOp = Go("ServeOne", func() (interface{}, error) { return nil, r.Srv.ServeOne(r.ServeCtx, trB) })
 	}
 	if !cfg.NoConn {
-		r.Conn = drpcconn.NewWithOptions(r.Pair.A, drpcconn.Options{Manager: cfg.Client})
+		r.Conn = drpcconn.NewWithOptions(trA, drpcconn.Options{Manager: cfg.Client})
 	}
 	return r
 }
@@ -93,6 +102,10 @@ func (r *Rig) Teardown() {
 	}
 	r.Pair.A.Close()
 	r.Pair.B.Close()
+	if r.realCleanup != nil {
+		r.realCleanup()
+		time.Sleep(5 * time.Millisecond)
+	}
 	census.Quiesce(10 * time.Second)
 	director.Install(nil)
 }
